@@ -31,10 +31,31 @@ def param_expr(body, l):
     return E("param", (), (body.path, l, body.name_of(l), body.local_tys[l]))
 
 
-def variant_env(prog, body, variant):
+def variant_env(prog, body, variant, fields=None):
+    """abstract env binding the message parameter to `variant`; `fields` optionally gives
+    abstract values for named fields of the variant (others unknown)"""
     l, ty = msg_param(body)
     adt = ty.split("<")[0]
-    return {param_expr(body, l): ("enum", variant, (), adt)}
+    payload = ()
+    if fields:
+        a = prog.adt(adt)
+        for vv in a["variants"]:
+            if vv["name"] == variant:
+                payload = tuple(fields.get(f["name"]) for f in vv["fields"])
+    return {param_expr(body, l): ("enum", variant, payload, adt)}
+
+
+def alts(world, e):
+    """identity alternatives of a value (phi flattened, wrappers stripped, Some(x) -> x)"""
+    i = world.ident(e)
+    xs = i.args if i.op == "phi" else (i,)
+    out = []
+    for x in xs:
+        if x.op == "adt" and x.info[1] == "Some" and x.info[0].endswith("Option") and x.args:
+            out.extend(alts(world, x.args[0]))
+        else:
+            out.append(x)
+    return out
 
 
 def stored(cell, *fields):
